@@ -352,6 +352,70 @@ func c15Table(p *Prog, r *Report) {
 	if n == 0 {
 		r.Ob("wilting-point-form", "-", false, "no store to LIM in Hydro")
 	}
+	// the routine is re-run for every horizon whenever the groundwater level changes: what it looks up must
+	// depend on the soil description only, never on the parameter values a previous run left behind
+	// (later in-place corrections of pore volume and capacity would be applied a second time)
+	state := map[string]bool{"FK": true, "LIM": true, "PRGES": true, "WUMAX": true, "W": true, "WMIN": true, "PORGES": true, "NORMFK": true, "WNOR": true, "GRW": true, "GW": true}
+	mentionsState := func(c *Cond) string {
+		hit := ""
+		var rec func(c *Cond)
+		rec = func(c *Cond) {
+			for _, s := range c.Sub {
+				rec(s)
+			}
+			c.P.walkAtoms(func(a *Atom) {
+				if a.Kind == "cell" {
+					k := a.Root
+					if i := strings.LastIndex(k, "."); i >= 0 && state[k[i+1:]] {
+						hit = k
+					}
+				}
+			})
+			if c.Kind == "opq" && c.Expr != nil {
+				ast.Inspect(c.Expr, func(n ast.Node) bool {
+					if se, ok := n.(*ast.SelectorExpr); ok && state[se.Sel.Name] {
+						hit = se.Sel.Name
+					}
+					return true
+				})
+			}
+		}
+		rec(c)
+		return hit
+	}
+	nl := 0
+	for _, e := range x.Events {
+		if e.Kind != "assign" || !(e.Root == "GlobalVarsMain.LIM" || e.Root == "GlobalVarsMain.PRGES" || e.Root == "InputSharedVars.FK" || e.Root == "GlobalVarsMain.WUMAX") {
+			continue
+		}
+		isLookup := false
+		e.Val.walkAtoms(func(a *Atom) {
+			if a.Kind == "call" && strings.Contains(a.Key, "ValAsFloat") {
+				isLookup = true
+			}
+		})
+		if !isLookup {
+			continue
+		}
+		nl++
+		bad := ""
+		for _, g := range e.Guards {
+			if h := mentionsState(g); h != "" {
+				bad = h
+			}
+		}
+		for _, L := range e.Loops {
+			if L.Cond != nil {
+				if h := mentionsState(L.Cond); h != "" {
+					bad = h
+				}
+			}
+		}
+		r.Ob("lookup-stateless:"+shortRoot(e.Root), p.Pos(e.Pos), bad == "", fmt.Sprintf("table value of %s is looked up under conditions on the soil description only (texture, density class)%s", shortRoot(e.Root), map[bool]string{true: "", false: " — the lookup depends on " + bad + ", a value left by a previous run of the routine: a re-run after a groundwater change skips it and the in-place corrections further down accumulate"}[bad == ""]))
+	}
+	if nl == 0 {
+		r.Ob("lookup-stateless", "-", false, "no table lookups found in Hydro")
+	}
 }
 
 // ---------------------------------------------------------------- pedotransfer functions
